@@ -19,6 +19,9 @@
 (*   "chunk"  pyscf_interface.chunked_cholesky(mol, thr):                  *)
 (*            while delta > thr; returns cv[:nchol]                        *)
 (*   "numpyfix" the numpy loop with the guard nchol < nmax (proposed fix)  *)
+(* (Not modelled: floating point, the +1e-10 the numpy routine adds to its *)
+(* pivot before the square root, the shell-wise integral evaluation and    *)
+(* the finite vector buffer cmax*nao of the chunked routine.)              *)
 (* They are modelled as Next relations (NextScan, NextNumpy, NextChunk,    *)
 (* NextNumpyFix) over the common Continue/Advance operators.  Ties in the  *)
 (* argmax are resolved non-deterministically in the Next relations (round- *)
